@@ -454,6 +454,28 @@ fn run(line: &str) -> String {
                 format!("Q {} {}", h(q), h(r))
             }
             "mag" => format!("I {}", h(fpdec_core::i128_magnitude(hex(a[0])) as i128)),
+            // private kernels, reached through the cfg(fpdec_verif) hooks of fpdec-core
+            "mulw" => {
+                let (hi, lo) = fpdec_core::verif_hooks::u128_mul_u128(uhex(a[0]), uhex(a[1]));
+                format!("Q {:x} {:x}", hi, lo)
+            }
+            "idiv" | "idiv64" | "idivs" => {
+                let (xh, xl, y) = (uhex(a[0]), uhex(a[1]), uhex(a[2]));
+                let (qh, ql, r) = match op {
+                    "idiv" => fpdec_core::verif_hooks::u256_idiv_u128(xh, xl, y),
+                    "idiv64" => fpdec_core::verif_hooks::u256_idiv_u64(xh, xl, y as u64),
+                    _ => fpdec_core::verif_hooks::u256_idiv_u128_special(xh, xl, y),
+                };
+                if qh == 0 {
+                    format!("Q {:x} {:x}", ql, r)
+                } else {
+                    format!("Q {:x}{:032x} {:x}", qh, ql, r)
+                }
+            }
+            "msb" => format!("I {:x}", fpdec_core::verif_hooks::u128_msb(uhex(a[0]))),
+            "lt5" => format!("I {:x}", fpdec_core::verif_hooks::less_than_5(uhex(a[0]) as u32)),
+            "chd" => b(fpdec_core::verif_hooks::chunk_contains_8_digits(uhex(a[0]) as u64)),
+            "chv" => format!("I {:x}", fpdec_core::verif_hooks::chunk_to_u64(uhex(a[0]) as u64)),
             "tenpow" => format!("I {}", h(fpdec_core::ten_pow(a[0].parse().unwrap()))),
             "mpt" => format!("I {}", h(fpdec_core::mul_pow_ten(hex(a[0]), a[1].parse().unwrap()))),
             "cmpt" => match fpdec_core::checked_mul_pow_ten(hex(a[0]), a[1].parse().unwrap()) {
